@@ -28,7 +28,7 @@ def obligations(tier):
         CH("contributing_set_every_sco", H, "contributing", t, mode="E1s", functions=F[:3],
            bounds="18 SCO classes x every presence vector of the specified contributing properties x ordinary/falsy values x with/without other properties"),
         CH("end_to_end_ids", H, "end_to_end", t, mode="E1s", functions=F,
-           bounds="18 constructor cases (incl. hash dictionaries and boolean arrays nested in contributing extensions) x (kwargs, reversed kwargs, parse, round trip without id, custom_properties, bundle member); explicit id kept"),
+           bounds="19 constructor cases (incl. hash dictionaries and boolean arrays nested in contributing extensions) x (kwargs, reversed kwargs, parse, round trip without id, custom_properties, bundle member, id=None, every nested dictionary in the opposite order); explicit id kept"),
         CH("custom_observable_ids", H, "custom_observable", t, mode="E1s", functions=F[:1] + ["stix2.custom._custom_observable_builder"],
            bounds="registered custom observable whose contributors are 2 own properties, an own property with a default, extensions and defanged: every presence vector x ordinary/falsy values (incl. 10^21) x (kwargs, custom_properties, parse)"),
         CH("make_json_serializable", H, "json_serializable", t, functions=F[2:3], bounds="int unbounded, bool, str <= 3, nested list/dict, None"),
